@@ -40,7 +40,7 @@ VARIABLES stop,      \* "" | "self" (AllInstancesFinished) | "ext" (Cancel / Poo
           bad2
 
 pvars == <<stop, nret, must, nmust, ctxDone, lateG, started, awaitedI, allFin, aggAwaited, waitDone, bad2>>
-avars == <<kind, ids, mode, before, pending, nrep, nmatched, nwritten, cancelled, closed, ended, bad>>
+avars == <<kind, ids, mode, before, pending, nrep, nmatched, nwritten, cancelled, closed, ended, bad, fault, faulted>>
 
 PInit == /\ Init
          /\ stop = "" /\ nret = 0 /\ must = <<>> /\ nmust = 0 /\ ctxDone = FALSE /\ lateG = {} /\ started = -1 /\ awaitedI = 0
@@ -92,13 +92,13 @@ HAllFinished == /\ Hook("AllInstancesFinished")
                 \* a run that ended by itself before the stop from outside arrived lost nothing
                 /\ before' = IF before = -1 /\ stop = "" THEN nret ELSE before
                 /\ UNCHANGED <<nret, must, nmust, ctxDone, lateG, started, awaitedI, aggAwaited, waitDone>>
-                /\ UNCHANGED <<kind, ids, mode, pending, nrep, nmatched, nwritten, cancelled, closed, ended, bad>>
+                /\ UNCHANGED <<kind, ids, mode, pending, nrep, nmatched, nwritten, cancelled, closed, ended, bad, fault, faulted>>
 \* instancePool.Run returns; with an error its deferred cancel() stops instances AND aggregator (hook first)
 HPoolReturn == /\ Hook("PoolReturn")
                /\ stop' = IF stop = "" /\ Ev.err # "<nil>" THEN "ext" ELSE stop
                /\ before' = IF stop = "" /\ Ev.err # "<nil>" /\ before = -1 THEN nret ELSE before
                /\ UNCHANGED <<nret, must, nmust, ctxDone, lateG, started, awaitedI, allFin, aggAwaited, waitDone, bad2>>
-               /\ UNCHANGED <<kind, ids, mode, pending, nrep, nmatched, nwritten, cancelled, closed, ended, bad>>
+               /\ UNCHANGED <<kind, ids, mode, pending, nrep, nmatched, nwritten, cancelled, closed, ended, bad, fault, faulted>>
 HAwaitAggregator == /\ Hook("AwaitAggregator") /\ aggAwaited' = TRUE
                     /\ bad2' = bad2 \cup Flag(stop # "", "AggregatorReturnedBeforeAnyCancel")
                                     \cup Flag(closed, "AggregatorAwaitedBeforeSinkClosed")
@@ -118,7 +118,7 @@ PNext == /\ l <= Len(Trace)
             \/ JLine /\ BkLine(Ev.s)
             \/ Cancel /\ BkCancel
             \/ RunEnd /\ BkRunEnd
-            \/ (BadLine \/ SinkClosed \/ EngineEnd \/ Content) /\ BkNone
+            \/ (BadLine \/ SinkClosed \/ Open \/ EngineEnd \/ Content) /\ BkNone
             \/ Cancelled \/ ReportRet \/ HAwaitStart \/ HAwaitInstance \/ HAllFinished \/ HPoolReturn \/ HAwaitAggregator
             \/ HWaitDone \/ HOther
 
